@@ -279,9 +279,17 @@ def run(tier, seed):
     nested = fam["nested"] + fam["sepkeys"]
     rnd.shuffle(nested)
     passes = 3 if thorough else 1
-    bsize = 250
+    bsize = 200
     for ps in range(passes):
-        for pool, carriers in ((nested, ["dkvp"]), ([x for x in nested if not x["je"]], HET_ANY), ([x for x in nested if x["ne"]], HET_ANY + HET_NE)):
+        if thorough:
+            pools = [(nested, ["dkvp"]), ([x for x in nested if not x["je"]], HET_ANY), ([x for x in nested if x["ne"]], HET_ANY + HET_NE)]
+        else:
+            # quick: every record once, through a carrier that can take it
+            pa, pb, pc = [], [], []
+            for x in nested:
+                (pa if x["je"] else pc if x["ne"] and rnd.random() < 0.7 else pb).append(x)
+            pools = [(pa, ["dkvp"]), (pb, HET_ANY), (pc, HET_NE)]
+        for pool, carriers in pools:
             pool = list(pool)
             rnd.shuffle(pool)
             for b in batches(pool, bsize):
@@ -297,7 +305,11 @@ def run(tier, seed):
         for x in nested:
             if not x["je"]:
                 groups.setdefault(json.dumps(x["shape"]), []).append(x)
-        for g in groups.values():
+        glist = list(groups.values())
+        rnd.shuffle(glist)
+        if not thorough:
+            glist = glist[:600]
+        for g in glist:
             rnd.shuffle(g)
             for b in batches(g, bsize):
                 sep = rnd.choice([[".",], [":"], [";"]])
@@ -315,7 +327,7 @@ def run(tier, seed):
     rnd.shuffle(pairs)
     rnd.shuffle(triples)
     if not thorough:
-        pairs, triples = pairs[:4000], triples[:1500]
+        pairs, triples = pairs[:3000], triples[:800]
     else:
         triples = triples[:60000]
     for c in pairs + triples:
@@ -412,6 +424,9 @@ def run(tier, seed):
                     "flagout": r1["stdout"].encode("utf-8", "surrogatepass").hex(), "expout": r2["stdout"].encode("utf-8", "surrogatepass").hex(),
                     "recs": recs if recs is not None else [], "exit": exit_})
         omap.append(("flag", i0, x))
+    if os.environ.get("VERIF_C02_SAVEOBS"):      # development aid
+        with open(os.environ["VERIF_C02_SAVEOBS"], "w") as f:
+            f.write("".join(json.dumps(o) + "\n" for o in obs))
     bad, n = b3.validate("ConvertObs", obs, consts, chunk=max(200, len(obs) // 16 + 1), threads=min(8, max(2, workers * 2)))
     states += n
     transitions += n
@@ -437,7 +452,8 @@ def run(tier, seed):
             last = e["exp"][-1] if e["exp"] else ["t", ""]
             V.violation({"clause": "flags", "why": p["why"], "grp": e["grp"], "argv": " ".join(token(t) for t in e["argv"]),
                          "rc": json.dumps(e["rc"]) if e["rc"] else "", "option": next((t[1] for t in e["argv"] if t[0] == "t" and t[1].startswith("-")), ""),
-                         "in": e["in"], "out": e["out"], "value_atoms": len(last[1]) if last[0] != "t" else 0},
+                         "in": e["in"], "out": e["out"],
+                         "value_atoms_rs": "multi" if last[0] != "t" and len(last[1]) > 1 and e["exp"][-2][1].endswith("rs") else ""},
                         {"entry": e, "expansion": [token(t) for t in e["exp"]], "probe_text": cases[i0]["stdin"],
                          "under_flag": res[i0]["stdout"][:1500], "under_expansion": res[i0 + 1]["stdout"][:1500],
                          "stderr_flag": res[i0]["stderr"][:400], "stderr_expansion": res[i0 + 1]["stderr"][:400],
